@@ -107,10 +107,10 @@ fn log_rule_update(map: &RuleMap) {
 
 /// different from
 pub fn append_rule(rule: Arc<Rule>) -> bool {
-    #[cfg(flea1lt_sentinel_rust_verif)]
-    crate::verif::sched::point("lk:flow.RULE_MAP:lock");
     // the rule map stays locked from the membership test to the rebuild, as in `load_rules`:
     // a concurrent clear or load must not slip in between the insert and the rebuild
+    #[cfg(flea1lt_sentinel_rust_verif)]
+    crate::verif::sched::point("lk:flow.RULE_MAP:lock");
     let mut rule_map = RULE_MAP.lock().unwrap();
     if rule_map
         .get(&rule.resource)
@@ -121,8 +121,6 @@ pub fn append_rule(rule: Arc<Rule>) -> bool {
     }
     match rule.is_valid() {
         Ok(_) => {
-            #[cfg(flea1lt_sentinel_rust_verif)]
-            crate::verif::sched::point("lk:flow.RULE_MAP:lock");
             rule_map
                 .entry(rule.resource.clone())
                 .or_default()
@@ -139,8 +137,6 @@ pub fn append_rule(rule: Arc<Rule>) -> bool {
         }
     }
     let mut placeholder = Vec::new();
-    #[cfg(flea1lt_sentinel_rust_verif)]
-    crate::verif::sched::point("lk:flow.RULE_MAP:lock");
     #[cfg(flea1lt_sentinel_rust_verif)]
     crate::verif::sched::point("lk:flow.CONTROLLER_MAP:lock");
     let mut controller_map = CONTROLLER_MAP.lock().unwrap();
